@@ -463,6 +463,9 @@ func merge(outs []*engine.BatchOut) *Agg {
 		if o.HealRoundsMax > a.HealRoundsMax {
 			a.HealRoundsMax = o.HealRoundsMax
 		}
+		if o.HealRatioMax > a.HealRatioMax {
+			a.HealRatioMax = o.HealRatioMax
+		}
 		a.LinChecked += o.LinChecked
 		a.LinOps += o.LinOps
 		a.Inconclusive += o.Inconclusive
